@@ -93,7 +93,9 @@ pub(crate) struct CelsData<P> {
 #[derive(Debug, Clone, Copy)]
 pub(crate) struct CelId {
     pub frame: u16,
-    pub layer: u16,
+    // Layer ids of the public API are u32 (a file may have more than 65535
+    // layer chunks), so this must not be narrower.
+    pub layer: u32,
 }
 
 impl fmt::Display for CelId {
@@ -113,7 +115,7 @@ where
                 d.entry(
                     &CelId {
                         frame: frame as u16,
-                        layer: cel.data.layer_index,
+                        layer: cel.data.layer_index as u32,
                     },
                     cel,
                 );
@@ -159,7 +161,7 @@ impl<P> CelsData<P> {
     pub(crate) fn cel(&self, cel_id: CelId) -> Option<&RawCel<P>> {
         let CelId { frame, layer } = cel_id;
         let cels = &self.data[frame as usize];
-        cels.binary_search_by_key(&layer, |cel| cel.data.layer_index)
+        cels.binary_search_by_key(&layer, |cel| cel.data.layer_index as u32)
             .ok()
             .map(|index| &cels[index])
     }
@@ -170,7 +172,7 @@ impl<P> CelsData<P> {
         self.data[cel_id.frame as usize]
             .iter_mut()
             .rev()
-            .find(|cel| cel.data.layer_index == cel_id.layer)
+            .find(|cel| cel.data.layer_index as u32 == cel_id.layer)
     }
 }
 
@@ -255,10 +257,10 @@ impl CelsData<RawPixels> {
         // (frame, layer). A target must exist, and it must be a raw cel. We
         // copy this out here, so we can consume the actual data in the
         // validation/transformation step.
-        let mut linkable_cels: Vec<(u16, u16)> = Vec::new();
+        let mut linkable_cels: Vec<(u16, u32)> = Vec::new();
         for (frame, cels) in self.data.iter().enumerate() {
             for cel in cels.iter().filter(|cel| cel.content.is_raw()) {
-                linkable_cels.push((frame as u16, cel.data.layer_index));
+                linkable_cels.push((frame as u16, cel.data.layer_index as u32));
             }
         }
         let validate_ref = |id: CelId| {
@@ -278,7 +280,7 @@ impl CelsData<RawPixels> {
             for cel in cels {
                 let cel_id = CelId {
                     frame: frame as u16,
-                    layer: cel.data.layer_index,
+                    layer: cel.data.layer_index as u32,
                 };
                 validated.push(cel.validate(
                     cel_id,
